@@ -69,7 +69,7 @@ PROPS["C05"] = {
                   "written from the draft; an end-to-end property drives the real twcc.SenderInterceptor (real ticker and clock, several streams sharing one counter) and judges every "
                   "written feedback from its bytes: wire form, no invented arrivals, arrival times bracketed by the wall-clock instants of the Read calls, 'not received' only for numbers "
                   "whose Read had not returned when the feedback was written, completeness, counter +1 per packet. Exploration.",
-    "level_note": "trusts: the may-model (forgetting is allowed exactly for arrivals >= 500 ms older than a later recorded arrival or > 2^15-1 behind the newest "
+    "level_note": "trusts: the may-model (forgetting is allowed exactly for arrivals that a feedback has covered and that are >= 500 ms older than a later recorded arrival, or > 2^15-1 behind the newest "
                   "number); arrival times >= 0; sequence unwrapping is taken from the library (verified exhaustively by C20)",
     "assumptions": ["arrival times are non-negative (the interceptor feeds time since start)",
                     "the 16-bit base of a feedback is located as the congruent unwrapped number in (newest-65536, newest]",
